@@ -192,6 +192,10 @@ impl RateLimiter for LeakyBucketRateLimiter {
     }
 }
 
+#[cfg(slawlor_ractor_verif)]
+#[path = "/verif/hooks/ratelim.rs"]
+pub mod verif_probe;
+
 #[cfg(test)]
 mod tests {
     use super::*;
